@@ -59,6 +59,15 @@ def ident_f32():
     return Gamma("ident_f32", lambda v: np.float32(v), lambda x: x, dtype=np.float32)
 
 
+def ident_u8():
+    return Gamma("ident_u8", lambda v: np.uint8(v) if 0 <= v < 256 else float(v), lambda x: x, dtype=np.uint8)
+
+
+def ident_bool():
+    """only for objects whose values are 0/1"""
+    return Gamma("ident_bool", lambda v: bool(v) if v in (0, 1) else float(v), lambda x: x, dtype=bool)
+
+
 def affine(a: float, b: float):
     return Gamma(f"affine({a},{b})", lambda v: a * v + b, lambda x: (x - b) / a)
 
@@ -81,8 +90,13 @@ def random_increasing(seed: int):
     return Gamma(f"random({seed})", fn, None)
 
 
+def half_mixed():
+    """v -> v/2; drivers build the class whose values are all integral with an integer dtype"""
+    return Gamma("half_mixed", lambda v: v / 2.0, lambda x: 2.0 * x)
+
+
 def family(tier: str, seed: int):
-    fam = [ident(), affine(2.5, -7.0), ident_int(), ident_f32()]
+    fam = [ident(), affine(2.5, -7.0), ident_int(), ident_f32(), ident_u8(), half_mixed()]
     if tier == "thorough":
         fam += [affine(0.1, 0.3), affine(1e-3, 1e3), random_increasing(seed)]
     return fam
